@@ -49,9 +49,8 @@ func (v *Vue) evalAttributes(ctx VueContext, n *html.Node) (map[string]any, erro
 			if err != nil {
 				return nil, fmt.Errorf("error evaluating attr %s: %w", boundName, err)
 			}
-			if !helpers.IsTruthy(boundValue) {
-				continue
-			}
+			// Keep the typed value (also when falsy) so that includes receive it as a prop;
+			// a falsy value still emits no attribute (see second pass)
 			results[boundName] = boundValue
 		default:
 			var err error
@@ -70,6 +69,10 @@ func (v *Vue) evalAttributes(ctx VueContext, n *html.Node) (map[string]any, erro
 
 	// Second pass: merge bound attributes with static ones
 	for attrName, boundValue := range results {
+		if !helpers.IsTruthy(boundValue) {
+			continue
+		}
+
 		// Check if there's a static attribute with the same name
 		staticIdx := -1
 		for i, a := range newAttrs {
